@@ -52,6 +52,9 @@ pub enum Fault {
     WatchdogExpiry,
     /// reply later than the slot time
     LateReply,
+    /// the slave raises Prm_Req in its diagnostics (and signals diagnostics) although it stays in
+    /// data exchange and does not report "not ready" — it wants to be parameterised again
+    PrmReqOnly,
     /// not a fault of the slave: the harness calls request_diagnostics() on the master while this
     /// transaction's reply is in flight
     UserDiagRequest,
@@ -252,6 +255,7 @@ impl SlaveCore {
                 } else {
                     self.prm_fault = false;
                     self.cfg_fault = false;
+                    self.extra_status2 &= !0x01;
                     self.master = Some(*sa);
                     self.wd_on = pdu[0] & 0x08 != 0;
                     self.sync = pdu[0] & 0x20 != 0;
@@ -377,6 +381,10 @@ impl Device for RefSlave {
             }
             Fault::PowerCycle => core.power_cycle(),
             Fault::DiagPending => core.diag_pending = true,
+            Fault::PrmReqOnly => {
+                core.extra_status2 |= 0x01;
+                core.diag_pending = true;
+            }
             Fault::WatchdogExpiry => {
                 if core.state == SlaveState::DataExch {
                     core.leave_data_exchange();
